@@ -139,6 +139,8 @@ fn names() -> Vec<Piece> {
         pt("\"é名\"", "é名", &["non_ascii"]),
         pt("\"a {b} c\"", "a {b} c", &["name_has_brace"]),
         p("Bare_1", "Bare_1"),
+        pt("\"Tier  1 -  gold\"", "Tier  1 -  gold", &["name_has_blank_run"]),
+        pt("\"a\tb\"", "a\tb", &["name_has_tab"]),
     ]
 }
 
@@ -177,6 +179,9 @@ fn attr_variants() -> Vec<Attr> {
         a("agenda-group \"no-loop\"", "agenda", "no-loop"),
         a("activation-group \"lock-on-active\"", "activation", "lock-on-active"),
         a("agenda-group \"é\"", "agenda", "é"),
+        a("agenda-group \"phase  2\"", "agenda", "phase  2"),
+        a("agenda-group \"a{b\"", "agenda", "a{b"),
+        a("activation-group \"a}b\"", "activation", "a}b"),
     ]
 }
 
@@ -260,6 +265,13 @@ fn strings() -> Vec<(&'static str, Vec<&'static str>)> {
         ("a'b, c", vec!["str_has_single_quote", "str_has_comma"]),
         ("[", vec!["str_has_bracket"]),
         ("a], [b", vec!["str_has_bracket", "str_has_comma"]),
+        ("a  b", vec!["str_has_blank_run"]),
+        (" lead and trail ", vec!["str_has_blank_run"]),
+        ("a\tb", vec!["str_has_tab"]),
+        ("50\u{a0}%", vec!["str_has_nbsp", "non_ascii"]),
+        ("f(x) > 2", vec!["str_looks_like_call"]),
+        ("x(y)", vec!["str_looks_like_call"]),
+        ("a{b", vec!["str_has_lbrace"]),
     ]
 }
 
@@ -455,6 +467,11 @@ fn actions() -> Vec<Piece> {
         p("MyFunc(1, \"a\");", "Custom(MyFunc, {\"0\": \"Int(1)\", \"1\": \"Str(\\\"a\\\")\"})"),
         p("Notify(F.a);", "Custom(Notify, {\"0\": \"Expr(F.a)\"})"),
         p("F.b=2;", "Set(F.b = Int(2))"),
+        p("retract( $F );", "Retract(F)"),
+        p("log( \"m\" );", "Log(\"m\")"),
+        p("MyFunc( 1 , \"a\" );", "Custom(MyFunc, {\"0\": \"Int(1)\", \"1\": \"Str(\\\"a\\\")\"})"),
+        p("Notify(\"a,b\");", "Custom(Notify, {\"0\": \"Str(\\\"a,b\\\")\"})"),
+        p("Notify(\"a\", \"b, c\", 3);", "Custom(Notify, {\"0\": \"Str(\\\"a\\\")\", \"1\": \"Str(\\\"b, c\\\")\", \"2\": \"Int(3)\"})"),
     ];
     for (s, tags) in strings() {
         let mut a = p(&format!("F.t = \"{}\";", s), &format!("Set(F.t = Str({:?}))", s));
@@ -485,6 +502,12 @@ enum Comment {
     BlockOwnLine,
     BlockInline,
     HeaderSlash,
+    /// block comments whose body starts with `/`, is made of stars, is empty, spans lines, or holds GRL text
+    BlockSlashFirst,
+    BlockStars,
+    BlockEmpty,
+    BlockCommentedAction,
+    BlockCommentedRule,
 }
 
 #[derive(Clone, Debug)]
@@ -540,6 +563,19 @@ impl Spec {
             Comment::BlockInline => {
                 let w = toks.iter().position(|t| t == "then").unwrap();
                 toks[w + 1] = format!("/* c */ {}", toks[w + 1]);
+            }
+            Comment::BlockSlashFirst | Comment::BlockStars | Comment::BlockEmpty | Comment::BlockCommentedAction => {
+                let c = match self.comment {
+                    Comment::BlockSlashFirst => "/*/ F.zz = 8; */",
+                    Comment::BlockStars => "/*** F.zz = 8; ***/",
+                    Comment::BlockEmpty => "/**/",
+                    _ => "/* F.zz = 8; log(\"x\"); */",
+                };
+                let w = toks.iter().position(|t| t == "then").unwrap();
+                toks[w + 1] = format!("{} {}", c, toks[w + 1]);
+            }
+            Comment::BlockCommentedRule => {
+                return format!("/*/ rule \"Ghost\" {{ when F.a == 1 then F.b = 2; }} /*/ {}", { let mut s2 = self.clone(); s2.comment = Comment::None; s2.text() });
             }
             Comment::HeaderSlash if nl => {
                 return format!("// a comment before the rule\n{}", { let mut s2 = self.clone(); s2.comment = Comment::None; s2.text() });
@@ -609,7 +645,7 @@ impl Spec {
             Comment::BlockOwnLine if self.layout == Layout::Newlines => {
                 t.insert("comment_block");
             }
-            Comment::BlockInline => {
+            Comment::BlockInline | Comment::BlockSlashFirst | Comment::BlockStars | Comment::BlockEmpty | Comment::BlockCommentedAction | Comment::BlockCommentedRule => {
                 t.insert("comment_block");
             }
             _ => {}
@@ -624,7 +660,7 @@ fn all_specs(tier: Tier) -> Vec<Spec> {
     let atoms = atoms();
     let acts = actions();
     let layouts = [Layout::Newlines, Layout::Spaces, Layout::Tabs, Layout::Compact];
-    let comments = [Comment::None, Comment::OwnLineSlash, Comment::TrailingSlash, Comment::BlockOwnLine, Comment::BlockInline, Comment::HeaderSlash];
+    let comments = [Comment::None, Comment::OwnLineSlash, Comment::TrailingSlash, Comment::BlockOwnLine, Comment::BlockInline, Comment::HeaderSlash, Comment::BlockSlashFirst, Comment::BlockStars, Comment::BlockEmpty, Comment::BlockCommentedAction, Comment::BlockCommentedRule];
     let with = |f: &dyn Fn(&mut Spec)| {
         let mut s = Spec::base();
         f(&mut s);
